@@ -601,6 +601,51 @@ def parseExtras (prop : String) (c : ParseCtx) (v : Verdict) : R Verdict := do
     if !wf then v := v.addDetail "C04" (Json.str "ill-formed or badly nested range")
     let nr := (c.stage1.map fun fr => (fr.ast.map Spec.PL.allRanges |>.getD []).length + (Spec.PL.diagRanges fr.diags).length).foldl (· + ·) 0
     v := { v with nontrivial := nr > 0, dist := bump v.dist s!"ranges~{min (nr / 20 * 20) 200}" }
+  if prop == "C14" || prop == "all" then
+    match (j.getObjVal? "garbage").toOption with
+    | some g =>
+      let gs ← nat (← fld g "start")
+      let ge ← nat (← fld g "end")
+      let siblings ← list str (← fld g "siblings")
+      let ok := c.stage1.all fun fr =>
+        match fr.ast with
+        | none => false
+        | some a =>
+          -- every well-formed sibling appears, in order and unchanged
+          siblings.isSublist (Spec.PL.sxMembers a)
+          -- at least one Error
+          && hasError fr.diags
+          -- every syntax Error lies within the extent of the malformed member
+          && fr.diags.all (fun d => d.kind != .error || (gs ≤ d.range.start.off && d.range.stop.off ≤ ge))
+      v := v.addSpec "C14" ok
+      if !ok then
+        v := v.addDetail "C14" (Json.mkObj [("garbage", Json.arr #[gs, ge]),
+          ("members", Json.arr ((c.stage1.head?.bind (·.ast)).map Spec.PL.sxMembers |>.getD [] |>.map Json.str).toArray),
+          ("diags", Json.arr ((c.stage1.head?.map (·.diags)).getD [] |>.map encDiag).toArray)])
+      let pos := (g.getObjVal? "position").toOption.bind (·.getNat?.toOption) |>.getD 0
+      let kind := (c.stage1.head?.bind (·.ast)).map (fun a => match a.item with
+        | .interface _ => "interface" | .parcelable _ => "parcelable" | .enum _ => "enum") |>.getD "none"
+      v := { v with nontrivial := true, dist := bump (bump v.dist s!"position={min pos 4}") kind }
+    | none => pure ()
+  if prop == "C18" || prop == "all" then
+    match (j.getObjVal? "docs").toOption with
+    | some dj =>
+      let expected ← list optStr (← fld dj "expected")
+      let sits ← list str (← fld dj "situations")
+      let docsOf (a : AidlFile) : List (Option String) :=
+        match a.item with
+        | .interface i => i.doc :: i.elements.flatMap fun
+            | .method m => m.doc :: m.args.map (·.doc)
+            | .const k => [k.doc]
+        | .parcelable p => p.doc :: p.elements.map fun | .field f => f.doc | .const k => k.doc
+        | .enum e => e.doc :: e.elements.map (·.doc)
+      let got := (c.stage1.head?.bind (·.ast)).map docsOf
+      v := v.addSpec "C18" (got == some expected)
+      if got != some expected then
+        let firstBad := ((got.getD []).zip expected).find? (fun (a, b) => a != b)
+        v := v.addDetail "C18" (Json.mkObj [("got", toString (repr (firstBad.map (·.1)))), ("expected", toString (repr (firstBad.map (·.2))))])
+      v := { v with nontrivial := expected.any (·.isSome), dist := sits.foldl bump v.dist }
+    | none => pure ()
   return v
 
 def handle (prop : String) (line : String) : Json :=
